@@ -384,11 +384,16 @@ func genArmor(ctx *Ctx, emit func(Case)) {
 // armorShapePredicate: C11's shape statement, evaluated on Armor62Seal's output.
 func armorShapePredicate(payload []byte, typ saltpack.MessageType, brand string) string {
 	s, err := saltpack.Armor62Seal(payload, typ, brand)
-	fail := func(w string) string {
-		return fmt.Sprintf("armored output is not well-formed (%s): type=%d brand=%q payload=%s", w, int(typ), brand, keys.Hex(payload))
-	}
 	if err != nil {
-		return fail(err.Error())
+		return fmt.Sprintf("armored output is not well-formed (%s): type=%d brand=%q payload=%s", err.Error(), int(typ), brand, keys.Hex(payload))
+	}
+	return armorShapeOfText(s, payload, typ, brand)
+}
+
+// armorShapeOfText: the frame / word / line shape the property demands of an armored text (however it was produced)
+func armorShapeOfText(s string, payload []byte, typ saltpack.MessageType, brand string) string {
+	fail := func(w string) string {
+		return fmt.Sprintf("armored output is not well-formed (%s): type=%d brand=%q payload=%s", w, int(typ), brand, trunc(keys.Hex(payload), 400))
 	}
 	ts := map[saltpack.MessageType]string{0: "ENCRYPTED MESSAGE", 1: "SIGNED MESSAGE", 2: "DETACHED SIGNATURE"}[typ]
 	b := ""
